@@ -18,6 +18,31 @@ def showRes (r : Res (List Val)) : String :=
   | .failed v => "failed | " ++ michToLine (tyToMich (typeOf v)) ++ " ; " ++ michToLine (valToMich v)
   | .err => "err"
 
+/-- `PUSH` parses its literal with `from_micheline_value`, which runs `check_constraints` (no duplicates, `keys ==
+sorted(keys)`) on every set / map literal; mirrored here, at the boundary, with the runtime `__eq__` / `__lt__` of the
+modelled key classes (literals over other key classes are taken as given) -/
+partial def implLitOk : Val → Bool
+  | .pair a b => implLitOk a && implLitOk b
+  | .some v => implLitOk v
+  | .left v _ => implLitOk v
+  | .right _ v => implLitOk v
+  | .list _ xs => xs.all implLitOk
+  | .set t xs =>
+    (!Impl.keyModelled t || (_root_.Impl.Coll.checkConstraints Impl.valEq Impl.valLt xs).isOk) && xs.all implLitOk
+  | .map k _ xs =>
+    (!Impl.keyModelled k || (_root_.Impl.Coll.checkConstraints Impl.valEq Impl.valLt (xs.map fun e => (Impl.toKV e).1)).isOk)
+      && xs.all implLitOk
+  | _ => true
+
+/-- the literals `PUSH`ed by the instructions of the top-level sequence (they are executed; the ones inside lambdas
+and branches are parsed only when reached) -/
+def topPushesOk : Instr → Bool
+  | .seq is => is.all fun i => match i with
+    | .PUSH _ v => implLitOk v
+    | _ => true
+  | .PUSH _ v => implLitOk v
+  | _ => true
+
 def parseEnv : List String → Option Env
   | [a, b, n, l, snd, src, slf, cid] => do
     pure { amount := ← parseInt a, balance := ← parseInt b, now := ← parseInt n, level := ← parseInt l,
@@ -31,11 +56,12 @@ def handle (line : String) : String :=
   | [[cmd, fuel], envw, prog] =>
     match fuel.toNat?, parseEnv envw, (parseMichTokens prog).bind instrOfMich with
     | some fuel, some env, some i =>
-      if cmd == "impl" then showRes (Impl.run env fuel i [])
-      else if cmd == "spec" then showRes (Spec.eval false env fuel i [])
-      else if cmd == "specg" then showRes (Spec.eval true env fuel i [])
+      if cmd == "impl" then (if topPushesOk i then showRes (Impl.run env fuel i []) else "err")
+      -- a program whose set / map literals are ill-formed is not well-typed: the reference says nothing about it
+      else if cmd == "spec" then (if Typing.literalsOk i then showRes (Spec.eval false env fuel i []) else "err")
+      else if cmd == "specg" then (if Typing.literalsOk i then showRes (Spec.eval true env fuel i []) else "err")
       else if cmd == "type" then
-        match Typing.typeInstr false i [] with
+        match (if Typing.literalsOk i then Typing.typeInstr false i [] else none) with
         | some (.ok ts) => joinWith " | " ("ok" :: ts.map fun t => michToLine (tyToMich t))
         | some .failed => "failed"
         | none => "ill-typed"
